@@ -206,6 +206,8 @@ def make_cases(spec, tspec, rng, msgtypes, adoc_i, tdoc_i, quick, skipped):
                 if ut not in tags_in_doc:
                     for st in (DEFAULT, SETTINGS[1], SETTINGS[2], SETTINGS[4]):
                         add(mt, body + [(ut, 'u')], 'invalidtag', ut, st)
+                    # the same tag twice where a setting tolerates the tag itself: still a duplicate
+                    add(mt, body + [(ut, 'u'), (ut, 'w')], 'dup_tolerated', ut, SETTINGS[1] if ut < 5000 else SETTINGS[2])
             # a dictionary field not defined for this message
             mdeep = deep_tags(spec, m['parts'])
             cand = [f for f in spec.doc['fields'] if f['num'] not in mdeep and f['num'] not in hdr_defined and f['type'] in STRINGY and not f['enums']
@@ -214,6 +216,7 @@ def make_cases(spec, tspec, rng, msgtypes, adoc_i, tdoc_i, quick, skipped):
                 nf = rng.choice(cand)
                 for st in (DEFAULT, SETTINGS[1], SETTINGS[4]):
                     add(mt, body + [(nf['num'], 'x')], 'notdefined', nf['num'], st)
+                add(mt, body + [(nf['num'], 'x'), (nf['num'], 'y')], 'dup_tolerated', nf['num'], SETTINGS[1])
             # value defects on top-level plain body fields
             idx_plain = [i for i, f in enumerate(body) if len(f) == 2 and top[i]]
             typed = [i for i in idx_plain if spec.bynum[body[i][0]]['type'] in INTY | FLOATY | {'BOOLEAN', 'UTCTIMESTAMP'} and not spec.bynum[body[i][0]]['enums']]
@@ -253,6 +256,11 @@ def make_cases(spec, tspec, rng, msgtypes, adoc_i, tdoc_i, quick, skipped):
                     nb[i] = (body[i][0], wrong)
                     add(mt, nb, 'groupcount', body[i][0], DEFAULT)
                     add(mt, nb, 'groupcount', body[i][0], SETTINGS[4])
+                # the count stays, every entry is gone
+                j = i + 1
+                while j < len(body) and not top[j]:
+                    j += 1
+                add(mt, body[:i + 1] + body[j:], 'groupcount', body[i][0], DEFAULT)
                 first_len = body[i][3][0]
                 if first_len >= 2 and len(body[i + 1]) == 2 and len(body[i + 2]) == 2:
                     nb = list(body)
